@@ -402,26 +402,34 @@ func runC20(c *eng.Ctx, tier string) {
 // c20Types: R-C20-4 and R-C20-6.
 func c20Types(c *eng.Ctx, parse, apply *ssa.Function) {
 	p := c.P
+	// comparisons `X.field == <type sentinel>` in f or in a helper it calls
+	// (the operand then reaches the helper as its parameter); the value is
+	// the comparison itself (it may be branched on, or combined with ||)
+	cmps := map[ssa.Value]bool{}
 	typeGlobals := func(f *ssa.Function, field string) map[string]*ssa.If {
 		out := map[string]*ssa.If{}
-		eng.Instrs(f, func(in ssa.Instruction) {
-			ifi, ok := in.(*ssa.If)
-			if !ok {
+		eng.InstrsDeep(f, func(_ *ssa.Function, in ssa.Instruction) {
+			b, ok := in.(*ssa.BinOp)
+			if !ok || b.Op != token.EQL {
 				return
 			}
-			op, x, y, isCmp := eng.CondOf(ifi.Cond, true).Cmp()
-			if !isCmp || op != token.EQL {
-				return
-			}
-			for _, pr := range [][2]ssa.Value{{x, y}, {y, x}} {
+			for _, pr := range [][2]ssa.Value{{b.X, b.Y}, {b.Y, b.X}} {
 				g := eng.GlobalLoad(pr[1])
-				if g == nil || !strings.HasSuffix(g.Name(), "Type") {
+				if g == nil || !eng.IsNamed(eng.Deref(g.Type()), "reflect", "Type") {
 					continue
 				}
-				fr, _, isF := eng.LoadedField(pr[0])
-				if isF && fr.Name == field {
-					out[g.Name()] = ifi
+				fr, _, isF := eng.LoadedField(eng.OriginX(pr[0]))
+				if !isF || fr.Name != field {
+					continue
 				}
+				cmps[b] = true
+				var site *ssa.If
+				for _, r := range *b.Referrers() {
+					if ifi, isIf := r.(*ssa.If); isIf {
+						site = ifi
+					}
+				}
+				out[g.Name()] = site
 			}
 		})
 		return out
@@ -442,33 +450,67 @@ func c20Types(c *eng.Ctx, parse, apply *ssa.Function) {
 	c.Check(strings.Join(ak, ",") == strings.Join(want, ","), "R-C20-4", parse, parse.Pos(), "plain field types accepted", "[]byte, string and setec.Secret (documented on Fields)", "accepted: "+strings.Join(ak, ","))
 	// the all-false branch of the validation chain returns an error
 	if len(accepted) > 0 {
-		// the last comparison's false edge
-		var last *ssa.If
-		for _, ifi := range accepted {
-			if last == nil || ifi.Pos() > last.Pos() {
-				last = ifi
-			}
-		}
-		// following only false edges of all type comparisons from the first one
-		var first *ssa.If
-		for _, ifi := range accepted {
-			if first == nil || ifi.Block().Dominates(first.Block()) {
-				first = ifi
-			}
-		}
+		// following only the edges possible when every type comparison is
+		// false (a boolean helper holding the comparisons is evaluated under
+		// that assumption), from the start of the field loop
+		isCmp := func(v ssa.Value) bool { return v != nil && cmps[eng.Origin(v)] }
 		allFalse := func(b *ssa.BasicBlock, i int) bool {
 			ifi, ok := b.Instrs[len(b.Instrs)-1].(*ssa.If)
 			if !ok {
 				return true
 			}
-			for _, a := range accepted {
-				if a == ifi {
+			cd := eng.CondOf(ifi.Cond, i == 0)
+			v, truth, isB := cd.Bool()
+			if cd.Op != token.ILLEGAL {
+				// a comparison branched on directly
+				if bo, isBO := eng.Origin(ifi.Cond).(*ssa.BinOp); isBO && cmps[bo] {
 					return i == 1
 				}
+				return true
+			}
+			if !isB {
+				return true
+			}
+			if call, _ := eng.TupleCall(v); call != nil && eng.IsHelper(parse, eng.Callee(&call.Call)) {
+				canT, canF := eng.BoolHelperUnder(call, isCmp)
+				if truth {
+					return canT
+				}
+				return canF
 			}
 			return true
 		}
-		hit, path := eng.SearchBlock(parse, first.Block(), allFalse, nil, func(x ssa.Instruction) bool {
+		// start where the plain-type decision starts: the first branch on a
+		// type comparison, or on a helper holding the comparisons
+		var first *ssa.BasicBlock
+		for _, b := range parse.Blocks {
+			ifi, ok := b.Instrs[len(b.Instrs)-1].(*ssa.If)
+			if !ok {
+				continue
+			}
+			decides := false
+			if bo, isBO := eng.Origin(ifi.Cond).(*ssa.BinOp); isBO && cmps[bo] {
+				decides = true
+			}
+			if v, _, isB := eng.CondOf(ifi.Cond, true).Bool(); isB {
+				if call, _ := eng.TupleCall(v); call != nil && eng.IsHelper(parse, eng.Callee(&call.Call)) {
+					eng.Instrs(eng.Callee(&call.Call), func(x ssa.Instruction) {
+						if bo, isBO := x.(*ssa.BinOp); isBO && cmps[bo] {
+							decides = true
+						}
+					})
+				}
+			}
+			if decides && (first == nil || b.Dominates(first)) {
+				first = b
+			}
+		}
+		if first == nil {
+			c.Undecided("R-C20-4", parse, parse.Pos(), "plain-type decision in parseFields", "no branch on the type comparisons found")
+			return
+		}
+		last := first.Instrs[len(first.Instrs)-1]
+		hit, path := eng.SearchBlock(parse, first, allFalse, nil, func(x ssa.Instruction) bool {
 			// reaching the recording of the field (append to the result) or the next field without an error
 			if args, ok := eng.BuiltinCall(x, "append"); ok {
 				if sl, isSl := args[0].Type().Underlying().(*types.Slice); isSl && eng.IsNamed(sl.Elem(), setecPkg, "fieldInfo") {
@@ -477,7 +519,8 @@ func c20Types(c *eng.Ctx, parse, apply *ssa.Function) {
 			}
 			return false
 		})
-		c.Check(hit == nil, "R-C20-4", parse, last.Pos(), "unsupported plain type in parseFields", "a tagged field of any other type (without json or an unmarshaler) is rejected up front, not recorded", func() string {
+		_ = last
+		c.Check(hit == nil, "R-C20-4", parse, parse.Pos(), "unsupported plain type in parseFields", "a tagged field of any other type (without json or an unmarshaler) is rejected up front, not recorded", func() string {
 			if hit == nil {
 				return ""
 			}
